@@ -505,9 +505,16 @@ class DistSystem:
                 self.counters['pinv_ill_conditioned_not_compared'] = self.counters.get('pinv_ill_conditioned_not_compared', 0) + 1
             else:
                 with np.errstate(all='ignore'):
-                    nanbad = (np.isnan(got) != np.isnan(o)).any()
+                    # non-representable pool: both results carry rounding amplified by the cancellation in their subtractive denominators;
+                    # entries whose amplification x machine epsilon exceeds tol/64 are counted, not compared
+                    keep = np.ones(np.shape(o), bool)
+                    if ref is not None and ref[j] is not None and ref[j][3] is not None and np.shape(ref[j][3]) == np.shape(o):
+                        keep = ~(np.nan_to_num(ref[j][3], nan=np.inf) * float(np.finfo(self.prec if self.family != 'mia' else 'float64').eps) > self.tol / 64)
+                        self.counters['oneshot_ill_conditioned_not_compared'] = self.counters.get('oneshot_ill_conditioned_not_compared', 0) + int((~keep).sum())
+                    nanbad = ((np.isnan(got) != np.isnan(o)) & keep).any()
                     sc = np.maximum(np.abs(o), np.nanmax(np.abs(o)) if np.isfinite(o).any() else 1.0)
-                    rel = np.nanmax(np.abs(got - o) / sc) if np.isfinite(o).any() else 0.0
+                    err = np.where(keep, np.abs(got - o) / sc, 0.0)
+                    rel = np.nanmax(err) if np.isfinite(o).any() and err.size else 0.0
                 tol = self.tol * (256 if names[j] == 'pooled_covariance_inv' else 1)
                 if nanbad or rel > tol:
                     v.append((self._fp(after + 'differs-from-oneshot/' + names[j]), '%s: %s after %d rows differs from the one-batch result beyond rounding (rel %.3g)' % (cfg, names[j], i, rel)))
@@ -528,6 +535,10 @@ class DistSystem:
                         self.counters['ill_conditioned_not_compared'] = self.counters.get('ill_conditioned_not_compared', 0) + int(ill.sum())
                         for kind in ('defined_bad', 'value_bad'):
                             cmpd[kind] = cmpd[kind] & ~ill
+                if not self.exact:
+                    # "an undefined entry is NaN, never infinite or finite" is stated for integer-valued inputs only: with non-representable
+                    # traces a zero variance comes out as rounding noise, so the implementation's value there is not constrained
+                    cmpd['undefined_bad'] = cmpd['undefined_bad'] & False
                 for kind in ('undefined_bad', 'defined_bad', 'value_bad'):
                     if cmpd[kind].any():
                         idx = tuple(int(t) for t in np.argwhere(cmpd[kind])[0])
